@@ -116,11 +116,12 @@ FindRigidTransformationBySVD<PointType>::estimate_(
   Eigen::Matrix<Scalar, -1, -1> u = svd.matrixU();
   Eigen::Matrix<Scalar, -1, -1> v = svd.matrixV();
 
-  //      if (u.determinant () * v.determinant () < 0)
-  //      {
-  //        for (int x = 0; x < d; ++x)
-  //          v (x, d) *= -1;
-  //      }
+  // v * u^T must be a proper rotation: when it is a reflection (possible when the
+  // smallest singular value is zero, e.g. coplanar 3D points), flip the singular
+  // vector of the smallest singular value
+  if (u.determinant() * v.determinant() < 0) {
+    v.col(CARTESIAN_DIM - 1) *= Scalar(-1);
+  }
 
   // Compute translation
   TransformationMatrixType H = TransformationMatrixType::Identity();
@@ -160,11 +161,12 @@ FindRigidTransformationBySVD<PointType>::estimate_(
   Eigen::Matrix<Scalar, -1, -1> u = svd.matrixU();
   Eigen::Matrix<Scalar, -1, -1> v = svd.matrixV();
 
-  //      if (u.determinant () * v.determinant () < 0)
-  //      {
-  //        for (int x = 0; x < d; ++x)
-  //          v (x, d) *= -1;
-  //      }
+  // v * u^T must be a proper rotation: when it is a reflection (possible when the
+  // smallest singular value is zero, e.g. coplanar 3D points), flip the singular
+  // vector of the smallest singular value
+  if (u.determinant() * v.determinant() < 0) {
+    v.col(CARTESIAN_DIM - 1) *= Scalar(-1);
+  }
 
   // Compute translation
   TransformationMatrixType H = TransformationMatrixType::Identity();
